@@ -20,6 +20,30 @@ ASSUMPTIONS = ["neutral form compares every slot of every node except coord"]
 SHARD_TIMEOUT = {"quick": 900, "thorough": 3600}
 
 
+# constructs that only pycparser's own grammar accepts (GNU statement expressions in every position where the parser
+# takes them, offsetof member designators, __int128, _Pragma operator ...): "every source text that parses" includes them
+_SE = "({ int q = 1; q; })"
+EXTRAS = [
+    "int f(int a, int *p) { return %s; }" % _SE,
+    "int f(int a, int *p) { if (%s) a = 1; return a; }" % _SE,
+    "int f(int a, int *p) { while (%s) a = 1; do a = 2; while (%s); switch (%s) { case 1: ; } return a; }" % (_SE, _SE, _SE),
+    "int f(int a, int *p) { for (%s; %s; %s) ; return p[%s]; }" % (_SE, _SE, _SE, _SE),
+    "int f(int a, int *p) { a = %s; g(%s, %s); %s; return (%s, %s); }" % (_SE, _SE, _SE, _SE, _SE, _SE),
+    "int f(int a, int *p) { int b = %s; int c[] = { %s, [1] = %s }; struct s v = { .m = %s }; return p[%s][%s]; }" % ((_SE,) * 6),
+    "int f(int a, int *p) { switch (a) { case 1: return %s; default: a = %s; } a += %s; a = %s, %s; return a; }" % ((_SE,) * 5),
+    "int f(int a) { return ({ ({ a; }); }); }",
+    "int f(int a) { a = ({ if (a) a = 1; else a = 2; a; }); return ({ int r[2] = { 1, 2 }; r[0]; }); }",
+    "int x = offsetof(struct s, a.b[1].c); int y = offsetof(struct s, m[2 + 3]);",
+    "__int128 big; unsigned __int128 ubig = 1; void f(void) { _Pragma(\"omp p\") ; }",
+]
+# K12 (a declared name becomes visible only at the end of the whole declaration) also breaks the round trip, because the
+# generator prints one declaration per declarator: (witness, neutralised twin)
+KF_WITNESSES = [
+    ("K12", "typedef int T, A[sizeof(T)];", "typedef int T; typedef int A[sizeof(T)];"),
+    ("K12", "typedef char T; void f(void) { int T, y = sizeof(T); }", "typedef char T; void f(void) { int T; int y = sizeof(T); }"),
+]
+
+
 def plan(tier, seed):
     specs = []
     n = 14
@@ -135,7 +159,7 @@ def run_shard(spec):
             if len(c.E.toks) < 400:
                 unit_pool.append(([("#pragma " + t[len("#pragma"):].strip() + "\n") if i in c.E.directive else t
                                    for i, t in enumerate(c.E.toks)], r))
-        zoo = [(mutate.units(t), {"zoo": n}) for n, t in corpus.zoo()]
+        zoo = [(mutate.units(t), {"zoo": n}) for n, t in corpus.zoo()] + [(mutate.units(t), {"extra": k}) for k, t in enumerate(EXTRAS)]
         for i in range(spec["nmut"]):
             us, org = rnd.choice(unit_pool) if (unit_pool and rnd.random() < 0.7) else rnd.choice(zoo)
             kind, mus = mutate.mutate(rnd, us, rnd.choice([1, 1, 2]))
@@ -143,6 +167,19 @@ def run_shard(spec):
     elif spec["mode"] == "corpus":
         for name, text in corpus.zoo() + corpus.repo_files():
             one(text, {"file": name})
+        for k, text in enumerate(EXTRAS):
+            n0 = cnt["accepted"]
+            one(text, {"extra": k})
+            if cnt["accepted"] == n0:
+                res.setdefault("inconclusive", []).append({"why": "an EXTRAS program is no longer accepted", "text": text[:80]})
+        for kf, wit, twin in KF_WITNESSES:
+            st, vs = roundtrip(wit, counters=cnt)
+            st2, vs2 = roundtrip(twin, counters=cnt)
+            res["evaluations"] += 4
+            res["violations"] += vs2           # the neutralised twin must round-trip
+            for v in vs:
+                v["kf"] = kf
+            res["violations"] += vs
     elif spec["mode"] == "big":
         name, text = corpus.big_files()[spec["index"]]
         one(text, {"file": name})
